@@ -380,3 +380,266 @@ func c05RegisterRw(c *core.Ctx) {
 		N:    c.N(2000, 60000), Corpus: rwCorpus, Gen: z.next, Check: rwCheck, Batch: 500,
 	})
 }
+
+// ---------------------------------------------------------------------------------------------------------
+// Leg Rs — the UN-GATED reductions (they also run with VerifDisableRewrites): alternation → set merging and
+// flattening, Nothing/Empty removal, adjacent loops and strings of a concatenation, nested concatenations.
+// There is no engine tree "before" them, so the tie is compositional: the parts x1 … xn are parsed on their own
+// (rewrites off) — that is what the parser hands to addChild — and Lean's one-step model reduceNode applied to
+// Alternate[x1…xn] / Concatenate[x1…xn] must be EXACTLY the engine's tree of (?:x1)|…|(?:xn) resp.
+// (?:x1)…(?:xn). On a difference the model-free oracle runs: the same parts wrapped in captures — (x1)|…|(xn),
+// (x1)…(xn) — cannot be merged or coalesced, and must match the same spans.
+
+type rsCase struct {
+	Kind  string   `json:"kind"` // "cat" | "alt"
+	Parts []string `json:"parts"`
+	Opts  int32    `json:"opts"`
+	Seed  int64    `json:"seed"`
+	// set by the search
+	Text  []rune `json:"text,omitempty"`
+	Start int    `json:"start,omitempty"`
+}
+
+func (c *rsCase) pattern(capture bool) string {
+	open := "(?:"
+	if capture {
+		open = "("
+	}
+	var ps []string
+	for _, p := range c.Parts {
+		ps = append(ps, open+p+")")
+	}
+	if c.Kind == "alt" {
+		return strings.Join(ps, "|")
+	}
+	return strings.Join(ps, "")
+}
+
+func rsGen(rng *rand.Rand, i int) rsCase {
+	pick := func(xs []string) string { return xs[rng.Intn(len(xs))] }
+	catParts := []string{"a", "a", "b", "ab", "aa", "aab", "ba", "a*", "a+", "a*?", "a+?", "a{2}", "a{1,3}", "a{2,}", "a?", "(?>a*)", "(?>a+)", "(?>a{2})",
+		"[ab]", "[ab]", "[ab]*", "[ab]+?", "[ab]{2}", "(?>[ab]*)", "[^a]", "[^a]", "[^a]*", "[^a]+?", "(?>[^a]+)", ".", ".*", `\d`, `\d`, `\d+`, `\d*?`, "",
+		"(?:)", "(?:a|b)", "(?:ab|cd)", "(?:a|b)*", "é", "b*", "b", "(?!)", "x", "$", "a{0,2}?", "[ab]{1,2}", "[^a]{2}"}
+	altParts := []string{"a", "b", "c", "a", "d", "[ab]", "[cd]", "[^a]", "[^b]", `\d`, `\w`, `\W`, `\D`, "[a-c]", "[b-d]", "ab", "cd", "", "", "(?!)", "(?:a|b)", "(?:ab|c)",
+		"a*", `[\d-[5]]`, `[\w-[a]]`, ".", `[\x00-a]`, `[c-\x{10FFFF}]`, `[\x00-\x{10FFFE}]`, "é", `\s`, `[a\d]`, `[b\s]`, "x", "[^ab]", `[\x01-\x{10FFFF}]`, `\p{Lu}`, `[a\p{Lu}]`}
+	n := 2 + rng.Intn(4)
+	cs := rsCase{Seed: rng.Int63()}
+	src := catParts
+	cs.Kind = "cat"
+	if rng.Intn(2) == 0 {
+		cs.Kind = "alt"
+		src = altParts
+	}
+	for j := 0; j < n; j++ {
+		cs.Parts = append(cs.Parts, pick(src))
+	}
+	opts := []regexp2.RegexOptions{0, 0, 0, 0, regexp2.RE2, regexp2.RightToLeft, regexp2.RightToLeft, regexp2.IgnoreCase, regexp2.Singleline, regexp2.ECMAScript}
+	cs.Opts = int32(opts[rng.Intn(len(opts))])
+	return cs
+}
+
+var rsCorpus = []rsCase{
+	{Kind: "cat", Parts: []string{"a*", "a"}},
+	{Kind: "cat", Parts: []string{"a", "a*"}},
+	{Kind: "cat", Parts: []string{"a*", "a*"}},
+	{Kind: "cat", Parts: []string{"a{2}", "a{3}"}},
+	{Kind: "cat", Parts: []string{"(?>a+)", "(?>a+)"}},
+	{Kind: "cat", Parts: []string{"(?>a+)", "(?>a*)"}},
+	{Kind: "cat", Parts: []string{"a+", "aab"}},
+	{Kind: "cat", Parts: []string{"a+", "aab"}, Opts: int32(regexp2.RightToLeft)},
+	{Kind: "cat", Parts: []string{"[^a]", "[^a]"}},
+	{Kind: "cat", Parts: []string{"a", "b", "", "cd"}},
+	{Kind: "cat", Parts: []string{"a", "b", "", "cd"}, Opts: int32(regexp2.RightToLeft)},
+	{Kind: "cat", Parts: []string{"a*", "a"}, Opts: int32(regexp2.IgnoreCase)},
+	{Kind: "alt", Parts: []string{"a", "b", "cd", "e", "f"}},
+	{Kind: "alt", Parts: []string{"a", "[^b]", "c"}},
+	{Kind: "alt", Parts: []string{"A", `\D`, "B"}, Opts: int32(regexp2.RE2)}, // D25
+	{Kind: "alt", Parts: []string{`[\x00-a]`, `[c-\x{10FFFF}]`, "b"}},
+	{Kind: "alt", Parts: []string{"a", "(?:b|c)", "", "", "(?!)"}},
+	{Kind: "alt", Parts: []string{`\w`, `\W`, "a"}},
+}
+
+func rsParse(pat string, opts int32) (*syntax.RegexTree, error) {
+	syntax.VerifDisableRewrites = true
+	defer func() { syntax.VerifDisableRewrites = false }()
+	return safeParse(pat, syntax.ParseOptions{RegexOptions: syntax.RegexOptions(opts)})
+}
+
+func rsCheck(c *core.Ctx, cases []rsCase) []core.Outcome {
+	outs := make([]core.Outcome, len(cases))
+	var send []string
+	var idx []int
+	want := map[int]string{}
+	for i := range cases {
+		cs := &cases[i]
+		o := &outs[i]
+		o.Key = fmt.Sprintf("%s|%d|%s", cs.Kind, cs.Opts, strings.Join(cs.Parts, "\x00"))
+		if cs.Text != nil {
+			if f := rsDiffer(cs, cs.Text, cs.Start); f != nil {
+				o.Fail = f
+			}
+			continue
+		}
+		whole, err := rsParse(cs.pattern(false), cs.Opts)
+		if err != nil {
+			o.Buckets = append(o.Buckets, "compile-error")
+			continue
+		}
+		rtl := whole.Options&syntax.RightToLeft != 0
+		base := gen.RNodeFromGoTree(whole, nil)
+		if base.Unsupported != "" {
+			o.Buckets = append(o.Buckets, "tree-unsupported")
+			continue
+		}
+		var parts []string
+		bad := false
+		for _, p := range cs.Parts {
+			t, err := rsParse(p, cs.Opts)
+			if err != nil {
+				bad = true
+				break
+			}
+			g := gen.RNodeFromGoTree(t, base)
+			if g.Unsupported != "" {
+				bad = true
+				break
+			}
+			parts = append(parts, g.Sexp)
+		}
+		if bad {
+			o.Buckets = append(o.Buckets, "tree-unsupported")
+			continue
+		}
+		// re-export with the final class numbering (the parts may have added classes)
+		base2 := gen.RNodeFromGoTree(whole, base)
+		if rtl && cs.Kind == "cat" {
+			// the parser stores a right-to-left concatenation reversed (reverseLeft, before reduce)
+			for a, b := 0, len(parts)-1; a < b; a, b = a+1, b-1 {
+				parts[a], parts[b] = parts[b], parts[a]
+			}
+		}
+		ow := int(syntax.RegexOptions(cs.Opts) &^ (syntax.RightToLeft | syntax.IgnoreCase))
+		send = append(send, fmt.Sprintf("(c05 step 0 %s 0 (%s %d (%s)))", core.SBool(rtl), cs.Kind, ow, strings.Join(parts, " ")))
+		idx = append(idx, i)
+		want[i] = base2.Sexp
+		o.Nontrivial = true
+		o.Buckets = append(o.Buckets, "kind:"+cs.Kind)
+		if rtl {
+			o.Buckets = append(o.Buckets, "right-to-left")
+		}
+	}
+	res, err := c.RunDriver(send)
+	if err != nil {
+		for i := range outs {
+			if outs[i].Fail == nil {
+				outs[i].Fail = core.DriverFailure(err)
+				break
+			}
+		}
+		return outs
+	}
+	for n, i := range idx {
+		cs, o := &cases[i], &outs[i]
+		a, err := parseSx(res[n])
+		if err != nil || a.head() != "ok" || len(a.args()) != 1 {
+			o.Fail = &core.Failure{Kind: "correspondence-break", Key: "Rs:driver-answer", Summary: "unreadable driver answer", Got: res[n]}
+			continue
+		}
+		got := czRender(a.args()[0])
+		if got == want[i] {
+			o.Buckets = append(o.Buckets, "model=engine")
+			if strings.HasPrefix(got, "("+cs.Kind+" ") && strings.Count(got, "(") == strings.Count(send[n], "(")-2 {
+				o.Buckets = append(o.Buckets, "nothing-reduced")
+			}
+			continue
+		}
+		if strings.Contains(got, "(base 1 () ())") {
+			// canonicalize's third normal form (needs the categories' membership of one rune): not modelled
+			o.Buckets = append(o.Buckets, "unmodelled:canonicalize-third-normal-form")
+			continue
+		}
+		rwLog("STEP %s %q opts %d\n  sent %s\n  lean %s\n  go   %s\n", cs.Kind, cs.Parts, cs.Opts, send[n], got, want[i])
+		// model ≠ code: does the engine's reduction change the meaning? (parts in captures cannot be merged)
+		if text, start, f := rsSearch(cs); f != nil {
+			cs.Text, cs.Start = text, start
+			o.Fail = f
+			continue
+		}
+		o.Fail = &core.Failure{Kind: "correspondence-break", Key: "Rs:model-differs-from-engine",
+			Summary:  fmt.Sprintf("the engine's reduced %s node of the parts %q (opts %d) is not what Lean's reduceNode computes from the parts' trees", cs.Kind, cs.Parts, cs.Opts),
+			Expected: "model: " + got, Got: "engine: " + want[i]}
+	}
+	return outs
+}
+
+func rsCompile(cs *rsCase) (plain, caps *regexp2.Regexp, err error) {
+	if plain, err = safeCompile(cs.pattern(false), regexp2.RegexOptions(cs.Opts)); err != nil {
+		return nil, nil, err
+	}
+	if caps, err = safeCompile(cs.pattern(true), regexp2.RegexOptions(cs.Opts)); err != nil {
+		return nil, nil, err
+	}
+	return plain, caps, nil
+}
+
+func rsSpan(m *regexp2.Match) string {
+	if m == nil {
+		return "(none)"
+	}
+	return fmt.Sprintf("(ok %d %d)", m.RuneIndex, m.RuneLength)
+}
+
+func rsDifferWith(cs *rsCase, plain, caps *regexp2.Regexp, text []rune, s int) *core.Failure {
+	a, e1 := regexp2.VerifNaiveScan(caps, text, s, s, -1, false)
+	b, e2 := regexp2.VerifNaiveScan(plain, text, s, s, -1, false)
+	if e1 != nil || e2 != nil {
+		return nil
+	}
+	if x, y := rsSpan(a), rsSpan(b); x != y {
+		return &core.Failure{Kind: "impl-violation", Key: "Rs:reduction-changes-result",
+			Summary:  fmt.Sprintf("a reduction of the %s of %q (opts %d) changes the result: %q and %q differ on input %q start %d", cs.Kind, cs.Parts, cs.Opts, cs.pattern(false), cs.pattern(true), string(text), s),
+			Expected: x, Got: y}
+	}
+	return nil
+}
+
+func rsDiffer(cs *rsCase, text []rune, s int) *core.Failure {
+	plain, caps, err := rsCompile(cs)
+	if err != nil {
+		return nil
+	}
+	return rsDifferWith(cs, plain, caps, text, s)
+}
+
+func rsSearch(cs *rsCase) ([]rune, int, *core.Failure) {
+	plain, caps, err := rsCompile(cs)
+	if err != nil {
+		return nil, 0, nil
+	}
+	rng := rand.New(rand.NewSource(cs.Seed))
+	alpha := []rune("aabbcd5_ -\nAéxB\x00")
+	for k := 0; k < 1500; k++ {
+		var in []rune
+		for j := 1 + rng.Intn(7); j > 0; j-- {
+			in = append(in, alpha[rng.Intn(len(alpha))])
+		}
+		starts := []int{0}
+		if regexp2.RegexOptions(cs.Opts)&regexp2.RightToLeft != 0 {
+			starts = []int{len(in)}
+		}
+		for _, s := range starts {
+			if f := rsDifferWith(cs, plain, caps, in, s); f != nil {
+				return in, s, f
+			}
+		}
+	}
+	return nil, 0, nil
+}
+
+func c05RegisterRs(c *core.Ctx) {
+	core.RunLeg(c, core.Leg[rsCase]{
+		Name: "Rs", Kind: "correspondence(un-gated reductions, compositional)+oracle",
+		Rule: "two to five parts drawn from single characters, strings, sets (positive, negated, with categories, with subtraction, near-universal), loops of the three kinds with fixed and variable counts, groups, Empty, (?!), under no option / RE2 / RightToLeft / IgnoreCase / Singleline / ECMAScript; each part is parsed on its own with the rewrites off (= the reduced child the parser hands to addChild), then Lean's reduceNode (rewrites off, every case enabled) on Alternate[parts] resp. Concatenate[parts] must equal, node for node, the engine's tree of (?:x1)|…|(?:xn) resp. (?:x1)…(?:xn). On a difference: the same parts in captures — which cannot be merged or coalesced — must match the same spans on 1500 random inputs (impl-violation with the input), else correspondence-break. non-trivial = sent to Lean",
+		N:    c.N(1500, 40000), Corpus: rsCorpus, Gen: rsGen, Check: rsCheck, Batch: 500,
+	})
+}
